@@ -16,8 +16,8 @@ ASSUMPTIONS = [
 NSHARDS = {"quick": 32, "thorough": 64}
 BUDGET_S = {"quick": 200, "thorough": 1800}
 MIN_HITS = {
-    "quick": {"pair": 3000, "len_constraint": 150, "sig_token": 300, "pubkey_token": 300, "pkh_token": 300, "self": 20000, "criteria": 1500, "expect_match": 1000, "expect_nomatch": 1000},
-    "thorough": {"pair": 80000, "len_constraint": 150, "mixed": 30000, "sig_token": 8000, "pubkey_token": 8000, "pkh_token": 8000, "self": 20000, "criteria": 40000},
+    'quick': {"pair": 3000, "len_constraint": 150, "sig_token": 300, "pubkey_token": 300, "pkh_token": 300, "self": 20000, "criteria": 1500, "expect_match": 1000, "expect_nomatch": 1000},
+    'thorough': {"pair": 675855, "len_constraint": 108, "mixed": 115194, "sig_token": 30720, "pubkey_token": 30720, "pkh_token": 30720, "self": 80192, "criteria": 1536000},
 }
 PSEUDO = {251, 252, 253, 254}
 OPC = [c for c in wire.PLAIN_OPCODES if c not in PSEUDO]
